@@ -294,6 +294,14 @@ def template_cases(R, r):
     template = "[{inner_()" + spec_text(outer_spec) + "}|{" + names[k2] + spec_text(other_spec) + "}|{inner_()}]"
     want = "[" + apply_spec(inner_text, outer_spec) + "|" + apply_spec(fmt_value(vals[k2]), other_spec) + "|" + inner_text + "]"
     R.expect("%s; %s; s(%s)" % (defs, helper, S(template, r)), want, "s:nested-interpolation", ("s-nested", template, helper, tuple(map(str, vals))))
+    # placeholders that hold an expression laid out with blanks, tabs and line breaks (inside the braces, and between them)
+    ws = r.choice([" ", "\n", "\t", "\r\n", "  \n  ", "\n\n"])
+    x, y = r.randint(0, 50), r.randint(1, 9)
+    sp = {"width": r.randint(1, 6)} if r.random() < 0.5 else {}
+    template = "a%s{vx_ +%svy_%s}%sb{%svx_%s}{[vx_,%svy_]}" % (ws, ws, spec_text(sp), ws, ws, ws, ws)
+    want = "a%s%s%sb%d[%d, %d]" % (ws, apply_spec(str(x + y), sp), ws, x, x, y)
+    R.expect("def vx_ = %d; def vy_ = %d; s(%s)" % (x, y, S(template, r)), want, "s:expression-layout", ("s-layout", template, x, y))
+    R.expect("sprintf(%s, %d, %d)" % (S("a%s{0%s}%s{1}" % (ws, spec_text(sp), ws), r), x, y), "a%s%s%s%d" % (ws, apply_spec(str(x), sp), ws, y), "sprintf:layout", ("sprintf-layout", ws, x, y))
 
 
 def run_shard(spec, ctx):
